@@ -94,8 +94,10 @@ def main():
                                      'update', 'clear', 'badwrite', 'badcontains', 'badremove', 'baddiscard'] + (['xcontains'] if incomp is not None else []))
                     if op == 'clear' and rng.random() < 0.7:
                         op = 'insert'
-                    if op == 'badremove' and fam[0] == 'O' and len(t) == 0:
-                        op = 'baddiscard'     # (an empty object-keyed C container answers KeyError: finding D38, C09)
+                    if op == 'badremove' and fam[0] == 'O':
+                        # (object keys: the C containers only notice a default-comparison key when a comparison with a stored
+                        #  key raises - none does in an empty container or next to None: KeyError; finding D38, C09)
+                        op = 'baddiscard'
                     if op == 'insert':
                         res = ['v', int(t.add(rk))]
                     elif op == 'setitem':
